@@ -1,8 +1,8 @@
 (* C04 - Nothing is transmitted when the node is not entitled to transmit.
 
    Independent notions and the fixed theorem statements.  All statements are about ONE step of the node ([rstep gf r op]) from an
-   ARBITRARY state, for every group function reaction [gf] that satisfies [gf_ok] below; by induction they hold along every history from
-   every cold node.  The debug modes dm_ClearText / dm_Actisense divert all output to a stream, are not part of the shared node model
+   ARBITRARY state, for every group function reaction [gf] (statements 3 and 5: every [gf] that satisfies [gf_ok] below); by induction
+   they hold along every history from every cold node.  The debug modes dm_ClearText / dm_Actisense divert all output to a stream, are not part of the shared node model
    and are out of scope.
 
    Vocabulary
@@ -71,8 +71,11 @@ Inductive Run (fwd:bool) : node -> list event -> list Z -> node -> Prop :=
 | R_seq n1 ev1 p1 n2 ev2 p2 n3 : Run fwd n1 ev1 p1 n2 -> Run fwd n2 ev2 p2 n3 -> Run fwd n1 (ev1 ++ ev2) (p1 ++ p2) n3.
 
 (* ================= hypothesis on the group function reaction =================
-   Whatever HandleGroupFunction does, it transmits only through SendMsg / SendFrames (a run of the machine without forwarding),
-   it is not invoked before the node is open, and it leaves the clock model alone. *)
+   Whatever HandleGroupFunction (the reaction to a complete PGN 126208 message) does, seen from the send side it is a run of the
+   machine without forwarding: it hands frames to the driver only through SendFrame calls for identifiers that are entitled in the
+   state in which they are made (which is what SendMsg guarantees, [send_msg_run]) and through SendFrames; it never closes a claim
+   window and takes no address without opening one.  Needed by statements 3 and 5 only; statements 1, 2, 4 hold for EVERY gf (the
+   handler is not reached in listen-only mode, before the node is open, or from SendMsg).  [gf_none] satisfies it. *)
 Definition gf_ok (gf : rnode -> slot -> rnode * list event) : Prop :=
   forall r s r' ev, gf r s = (r', ev) -> clock_ok (rn r) -> exists p, Run false (rn r) ev p (rn r').
 
@@ -88,7 +91,7 @@ Definition listen_only_silent_stmt : Prop :=
     n_mode (rn r) = 0 -> queue_empty (n_q (rn r)) ->
     no_tx ev /\ n_mode (rn r') = 0 /\ n_q (rn r') = n_q (rn r) /\
     (match o with RBase (OAccept p) => n_drv (rn r') = p | _ => n_drv (rn r') = n_drv (rn r) end) /\
-    (forall b, In (EvResult b) ev -> b = false).
+    (forall i m, o = RBase (OSend i m) -> forall b, In (EvResult b) ev -> b = false).
 
 (* ================= 2. not open =================
    (a) Open() ([open_step]) calls the driver only in the call that completes it: the open state was WaitOpen (precisely: none of
